@@ -38,7 +38,15 @@ def load_findings():
 def finding_matches(finding, prop_id, fail):
     if finding["property"] != prop_id:
         return False
-    if finding.get("subcheck") is not None and finding["subcheck"] != fail.subcheck:
+    sc = finding.get("subcheck")
+    if sc is not None and (fail.subcheck not in sc if isinstance(sc, list) else sc != fail.subcheck):
+        return False
+    for alt in finding.get("match_any", []) or [None]:
+        if alt is None:
+            break
+        if all(fail.features.get(k) == v for k, v in alt.items()):
+            break
+    else:
         return False
     for k, v in finding.get("match", {}).items():
         have = fail.features.get(k)
